@@ -4,7 +4,7 @@ import json, os, subprocess, sys
 from . import pipeline, tlc
 from .check import REPO
 
-def run(ctx, prefixes, files=("tests/test_core.py",), timeout=1800):
+def run(ctx, prefixes, files=("tests/test_core.py", "tests/gallery/test_gallery.py", "tests/deprecated_gallery", "tests/test_compiler.py"), timeout=1800):
     out = os.path.join(ctx.scratch, "repotests")
     os.makedirs(out, exist_ok=True)
     env = dict(os.environ, CVH_REPOTRACE_OUT=out, CONSTRUCT_VERIF_TRACE="1",
